@@ -160,6 +160,15 @@ class DictWriter:
                         # Custom odML tuples require special handling.
                         if attr == "values" and prop.dtype and \
                                 prop.dtype.endswith("-tuple") and prop.values:
+                            # The text form separates the tuples by commas. A tuple
+                            # item containing a comma could not be loaded again, so
+                            # refuse it instead of writing an unloadable document.
+                            for val in prop.values:
+                                if val and any(isinstance(item, str) and "," in item
+                                               for item in val):
+                                    msg = "Property '%s': the tuple value %s contains a " \
+                                          "comma and cannot be saved" % (prop.name, val)
+                                    raise ParserException(msg)
                             prop_dict["value"] = odml_tuple_export(prop.values)
                         else:
                             # Always use the arguments key attribute name when saving
